@@ -9,6 +9,7 @@ taken at call entry - never from the object's derived caches.
 Trace relations (sign reversal, alpha scaling, zero padding), twin-object / caller-array purity and "first result
 intact after a second call" are evaluated by the driver over the monitored calls.
 """
+import copy
 import warnings
 
 import numpy as np
@@ -45,8 +46,18 @@ RULE = ('cases = (record, dt) pairs driven through the public eqsig.im functions
         'velocity changes sign at least 3 times. Twin objects: A, B built from one caller array and C from A.values; A is '
         'mutated and measured, then the caller array, B and C and their measures must be bit-for-bit what they were. '
         'Back to back: each measure on two different records of one shape, first result compared after the second '
-        'call. distinct = digest(values, dt, part); non-trivial = record with a non-zero sample.')
-ASSUMPTIONS = ['NaN-free real records, n >= 1, dt > 0',
+        'call. Shapes the statement does not forbid (applied to ~25-35% of the records of both parts): one-sided '
+        '(all negative / all positive), tail-heavy, monotone / trend dominated, runs of exact zeros inside, both ends at '
+        'the peak, one sample 1e3..1e12 times larger than the rest, a constant record with one changed sample. Steps: '
+        'gen.awkward_dt (quotient-awkward) in the quadrature part; for CAVdp every integer rate 1..2048, all ~290 '
+        'k <= 4096 whose reciprocal floors to k-1, rates 2**j-1..2**j+1, nice steps moved by 1-3 ulp, up to 300 s at '
+        '<= 50 samples/s. Derived objects: an analysed AccSignal A is turned into D by deepcopy+reset_values, '
+        'deepcopy+add_constant, interp_to_approx_dt / resample_to_approx_dt (incl. target == current), combine_at_angle '
+        '(incl. 0, 90, 180 degrees), a Cluster member, or AccSignal(real(fas2signal(A.fa_spectrum))); every measure on D '
+        'is judged against D\'s own values, D is corrected in place, A must be bit-for-bit unchanged. The deprecated '
+        'AccSignal.generate_cumulative_stats attributes (arias_intensity, cav) are judged by the Arias/CAV final '
+        'clauses. distinct = digest(values, dt, part); non-trivial = record with a non-zero sample.')
+ASSUMPTIONS = ['NaN-free real records, n >= 1, dt > 0; complex-typed records (raw fas2signal output) are counted, never judged',
                'a record is the sequence of real numbers its container holds: integer containers of any width are '
                'judged against the float64 quadrature of their values; float32 records are judged with the unit '
                'round-off of float32 (rtol (n+10)*2^-23), everything else with rtol 1e-10',
@@ -83,11 +94,13 @@ FN = {'arias': 'calc_arias_intensity', 'cav': 'calc_cav', 'isv': 'calc_isv', 'ab
 PARAM = {'arias': 'acc_sig', 'cav': 'acc_sig', 'isv': 'acc_sig', 'abs_acc': 'asig', 'abs_vel': 'asig', 'cad': 'asig',
          'uke': 'acc_signal', 'cavdp': 'asig'}
 PURITY = 'purity.signal-unchanged-by-call'
+OWNS = 'ownership.result-owns-its-data'
+DERIVED = 'purity.derived-object-independent'
 TWIN = 'purity.twin-objects+caller-array'
 STATE = 'state.first-result-intact'
 
 
-def _mins(f, cd, rel, pad, pur, twin, state):
+def _mins(f, cd, rel, pad, pur, twin, state, derived):
     m = {}
     for k in ('arias', 'cav', 'isv', 'abs_acc', 'abs_vel', 'cad', 'uke'):
         m[FINAL_CLAUSE[k]] = f
@@ -97,13 +110,13 @@ def _mins(f, cd, rel, pad, pur, twin, state):
               'cavdp.in[0,CAV/g]': int(cd * 0.5), 'cavdp.monotone': int(cd * 0.5), 'cavdp.length': int(cd * 0.5),
               'cavdp.gate-decided-exactly': int(cd * 0.06),
               'relation.sign': rel, 'relation.scale.pow2': rel, 'relation.scale.random': rel, 'relation.zero-pad': pad,
-              PURITY: pur, TWIN: twin, STATE: state})
+              PURITY: pur, OWNS: pur, TWIN: twin, STATE: state, DERIVED: derived})
     return m
 
 
 # about 50% of what a normal run reaches
-MIN_EVALS = {'quick': _mins(5500, 1600, 8000, 1500, 45000, 120, 900),
-             'thorough': _mins(110000, 27000, 160000, 30000, 900000, 2400, 18000)}
+MIN_EVALS = {'quick': _mins(5500, 1600, 8000, 1500, 45000, 120, 900, 150),
+             'thorough': _mins(110000, 27000, 160000, 30000, 900000, 2400, 18000, 3000)}
 
 
 def _sig(args, kwargs):
@@ -161,10 +174,21 @@ def _velocity(acc, dt, eps):
     return _VEL['val']
 
 
+def _real_record(acc_in):
+    """float64 values of the record, or None for a complex-typed record: the statement's integrals of a^2, |a|, v^2
+    are defined for real records only, so complex-typed records (e.g. the raw output of fas2signal) are counted, not
+    judged; a user analyses their real part (which the derived-object workload does)."""
+    a = np.asarray(acc_in)
+    if a.dtype.kind == 'c':
+        return None
+    return np.asarray(a, dtype=float)
+
+
 def _shape_clauses(ctx, key, acc, dt, result, n):
     """length and monotonicity; returns the series as float array, or None when there is no final value to judge."""
     try:
-        r = np.asarray(result, dtype=float)
+        r = np.asarray(result)
+        r = np.asarray(r, dtype=float) if r.dtype.kind != 'c' else np.zeros((0, 0))     # a complex series for a real record
     except Exception:
         r = np.zeros((0, 0))
     ctx.check(r.ndim == 1 and r.shape[0] == n, key + '.length', lambda: _wit(key, acc, dt, got_shape=list(r.shape)),
@@ -185,7 +209,10 @@ def _shape_clauses(ctx, key, acc, dt, result, n):
 def check_quadrature(ctx, key, acc_in, dt, result):
     """Post-condition of the seven quadrature-defined measures; acc_in, dt = the object's values and step at call
     entry. Everything expected is derived from these two alone."""
-    acc = np.asarray(acc_in, dtype=float)
+    acc = _real_record(acc_in)
+    if acc is None:
+        ctx.observe('complex-typed record (not judged)')
+        return
     n = acc.shape[0] if acc.ndim == 1 else 0
     if n < 1 or not np.all(np.isfinite(acc)) or not (dt > 0):
         ctx.observe('out-of-domain-call(empty/NaN/dt<=0)')
@@ -231,7 +258,10 @@ def cavdp_in_quantifier(acc, dt):
 
 
 def check_cav_dp(ctx, acc_in, dt, result):
-    acc = np.asarray(acc_in, dtype=float)
+    acc = _real_record(acc_in)
+    if acc is None:
+        ctx.observe('complex-typed record (not judged)')
+        return
     n = acc.shape[0] if acc.ndim == 1 else 0
     inside, pps = cavdp_in_quantifier(acc, dt)
     if not inside:
@@ -274,34 +304,60 @@ def _bytes_equal(a, b):
     return a.dtype == b.dtype and a.shape == b.shape and a.tobytes() == b.tobytes()
 
 
+LAZY = ('_velocity', '_displacement', '_cached_disp_and_velo')      # a measure may fill this cache, never change it
+
+
+def _snap_value(v):
+    if isinstance(v, np.ndarray):
+        return np.array(v, copy=True)
+    try:
+        return copy.deepcopy(v)
+    except Exception:
+        return v
+
+
+def _same(a, b):
+    if isinstance(a, np.ndarray) or isinstance(b, np.ndarray):
+        return isinstance(a, np.ndarray) and isinstance(b, np.ndarray) and _bytes_equal(a, b)
+    try:
+        return type(a) is type(b) and bool(a == b)
+    except Exception:
+        return a is b
+
+
 def _pre(args, kwargs):
     """Snapshot of the object at call entry: the post-condition is judged against what the function was given,
-    whatever the call (or an earlier one) did to the object; the purity clause compares the object with it."""
+    whatever the call (or an earlier one) did to the object; the purity clause compares the whole instance state."""
     asig = _sig(args, kwargs)
-    snap = {'obj': asig, 'acc': np.array(asig.values, copy=True), 'dt': float(asig.dt), 'dt_raw': asig.dt}
-    if getattr(asig, '_cached_disp_and_velo', False):
-        snap['vel'] = np.array(asig._velocity, copy=True)
-        snap['disp'] = np.array(asig._displacement, copy=True)
-    return snap
+    return {'obj': asig, 'acc': np.array(asig.values, copy=True), 'dt': float(asig.dt),
+            'state': {k: _snap_value(v) for k, v in vars(asig).items()}}
 
 
-def check_purity(ctx, key, snap):
+def check_purity(ctx, key, snap, result):
     asig = snap['obj']
-    what = None
+    before, now = snap['state'], vars(asig)
+    warm = bool(before.get('_cached_disp_and_velo', False))
+    changed = []
+    for k in sorted(set(before) | set(now)):
+        if k in LAZY and not warm:
+            continue
+        if k not in before or k not in now or not _same(before[k], now[k]):
+            changed.append(k)
     if not _bytes_equal(asig.values, snap['acc']):
-        what = 'values'
-    elif not (asig.dt == snap['dt_raw'] and type(asig.dt) is type(snap['dt_raw'])):
-        what = 'dt'
-    elif 'vel' in snap and getattr(asig, '_cached_disp_and_velo', False):
-        if not _bytes_equal(asig._velocity, snap['vel']):
-            what = 'cached velocity'
-        elif not _bytes_equal(asig._displacement, snap['disp']):
-            what = 'cached displacement'
-    if what is None:
+        changed.append('values')
+    if not changed:
         ctx.ok(PURITY)
     else:
-        ctx.violation(PURITY, _wit(key, snap['acc'], snap['dt'], changed=what),
-                      '%s changed the %s of the signal object it was given (n=%d)' % (FN[key], what, len(snap['acc'])))
+        ctx.violation(PURITY, _wit(key, snap['acc'], snap['dt'], changed=changed),
+                      '%s changed the state of the signal object it was given: %s (n=%d)'
+                      % (FN[key], ', '.join(changed), len(snap['acc'])))
+    res = np.asarray(result)
+    alias = [k for k, v in now.items() if isinstance(v, np.ndarray) and v.size and res.size and np.may_share_memory(res, v)]
+    if not alias:
+        ctx.ok(OWNS)
+    else:
+        ctx.violation(OWNS, _wit(key, snap['acc'], snap['dt'], aliases=alias),
+                      '%s returned an array sharing memory with %s of the signal object' % (FN[key], ', '.join(alias)))
 
 
 def _mk_post(key):
@@ -310,7 +366,7 @@ def _mk_post(key):
             check_cav_dp(CTX, pre['acc'], pre['dt'], result)
         else:
             check_quadrature(CTX, key, pre['acc'], pre['dt'], result)
-        check_purity(CTX, key, pre)
+        check_purity(CTX, key, pre, result)
     return post
 
 
@@ -359,8 +415,19 @@ def _apply(ctx, eqsig, asig, op, out, exact=False):
             out[key] = np.asarray(r, dtype=float)
             return r
         if kind == 'stats':
+            acc0, dt0 = np.array(asig.values, copy=True), float(asig.dt)
             asig.generate_cumulative_stats()
             ctx.observe('object.generate_cumulative_stats-call')
+            rec = _real_record(acc0)
+            if rec is not None and rec.size:
+                rtol = _prec(acc0, rec.size)[0]
+                under = _underflow(acc0, rec.size, dt0)
+                for k2, attr, ref in (('arias', 'arias_intensity', Q.arias_final(rec.tolist(), dt0)),
+                                      ('cav', 'cav', Q.cav_final(rec.tolist(), dt0))):
+                    got = float(np.real(getattr(asig, attr)))
+                    ctx.check(abs(got - ref) <= under + rtol * abs(ref), FINAL_CLAUSE[k2],
+                              lambda: _wit(k2, acc0, dt0, via='generate_cumulative_stats', attribute=attr, got_final=got, expected=ref),
+                              'AccSignal.%s = %r after generate_cumulative_stats(), defining quadrature gives %r' % (attr, got, ref))
         elif kind == 'read':
             getattr(asig, op[1])
         elif kind == 'add_constant':
@@ -376,7 +443,9 @@ def _apply(ctx, eqsig, asig, op, out, exact=False):
         if kind != 'stats':
             ctx.observe('history.' + (op[1] if kind == 'method' else kind))
     except Exception as e:
-        if kind == 'call' and op[1] == 'cavdp' and not cavdp_in_quantifier(np.asarray(asig.values, dtype=float), float(asig.dt))[0]:
+        if kind == 'call' and np.asarray(asig.values).dtype.kind == 'c':
+            ctx.observe('complex-typed record (not judged)')
+        elif kind == 'call' and op[1] == 'cavdp' and not cavdp_in_quantifier(np.real(np.asarray(asig.values)).astype(float), float(asig.dt))[0]:
             ctx.observe('cavdp.out-of-quantifier-call-raised')      # e.g. after a shorter reset: under 2 s
         elif kind == 'call':
             clause = 'cavdp.final==windows+-panel' if op[1] == 'cavdp' else op[1] + '.length'
@@ -473,6 +542,88 @@ def back_to_back(ctx, eqsig, x1, x2, dt, keys, kw=False):
         SCEN['cur'] = None
 
 
+def ctx_rng_bit(x):
+    """deterministic coin from the record (keeps replay identical)"""
+    return bool(int(np.asarray(x).shape[0]) % 2)
+
+
+DERIVATIONS = ('deepcopy+reset', 'deepcopy+add', 'interp', 'resample', 'combine', 'cluster', 'fas2signal')
+
+
+def derived_case(ctx, eqsig, x, x2, dt, how, param):
+    """A is analysed ("warm": every measure called, velocity memo filled); the library (or deepcopy + a public
+    mutator) derives D from it; every measure on D is judged by the normal post-conditions against D's own current
+    values (a memo carried over from A would show as a wrong final value); D must own its data: correcting D in place
+    leaves A's values and every measure of A bit-for-bit what they were."""
+    SCEN['cur'] = {'kind': 'derived', 'acc0': np.array(x), 'acc2': np.array(x2), 'dt': float(dt), 'dt_kind': _dt_kind(dt),
+                   'how': how, 'param': param}
+    try:
+        x0 = np.array(x, copy=True)
+        a_sig = eqsig.AccSignal(x, dt)
+        before = {}
+        _ = [_apply(ctx, eqsig, a_sig, ['call', k], before) for k in QUAD_KEYS]
+        before = {k: (None if v is None else v.copy()) for k, v in before.items()}
+        others = []
+        try:
+            if how == 'deepcopy+reset':
+                d_sig = copy.deepcopy(a_sig)
+                d_sig.reset_values(x2)
+            elif how == 'deepcopy+add':
+                d_sig = copy.deepcopy(a_sig)
+                d_sig.add_constant(param)
+            elif how == 'interp':
+                d_sig = eqsig.interp_to_approx_dt(a_sig, target_dt=param)
+            elif how == 'resample':
+                d_sig = eqsig.resample_to_approx_dt(a_sig, target_dt=param)
+            elif how == 'combine':
+                b_sig = eqsig.AccSignal(x2, dt)
+                b_sig.velocity
+                others.append((b_sig, np.array(b_sig.values, copy=True)))
+                d_sig = eqsig.combine_at_angle(a_sig, b_sig, param)
+            elif how == 'cluster':
+                d_sig = eqsig.Cluster([a_sig.values, x2], dt, stypes='acc').signal_by_index(0)
+            elif how == 'fas2signal':
+                raw = eqsig.fas2signal(a_sig.fa_spectrum, a_sig.dt, stype='acc')       # complex-typed, real by construction
+                if ctx_rng_bit(x0):
+                    _apply(ctx, eqsig, raw, ['call', 'cav'], {})                       # counted as an observation, not judged
+                d_sig = eqsig.AccSignal(np.real(raw.values), raw.dt)                    # what a user must analyse
+            else:
+                raise ValueError(how)
+        except Exception:
+            ctx.observe('derived.%s-raised(not judged by C09)' % how)
+            return
+        ctx.observe('derived.' + how)
+        inside = cavdp_in_quantifier(np.real(np.asarray(d_sig.values)).astype(float), float(d_sig.dt))[0]
+        out = {}
+        for k in QUAD_KEYS + (['cavdp'] if inside else []):
+            _apply(ctx, eqsig, d_sig, ['call', k], out)
+        bad = []
+        if d_sig is a_sig or np.shares_memory(np.asarray(d_sig.values), np.asarray(a_sig.values)):
+            bad.append('derived object shares its values with the source')
+        for o_sig, _o in others:
+            if d_sig is o_sig or np.shares_memory(np.asarray(d_sig.values), np.asarray(o_sig.values)):
+                bad.append('derived object shares its values with the second source')
+        try:
+            d_sig.add_constant(0.5 * (float(np.max(np.abs(x0))) or 1.0))      # correct the derived record ...
+            d_sig.rebase_displacement()                                        # ... also with the in-place -= style
+        except Exception:
+            ctx.observe('derived.correction-raised(not judged by C09)')
+        if not _bytes_equal(a_sig.values, x0):
+            bad.append('values of the source object')
+        for o_sig, o0 in others:
+            if not _bytes_equal(o_sig.values, o0):
+                bad.append('values of the second source object')
+        after = {}
+        _ = [_apply(ctx, eqsig, a_sig, ['call', k], after) for k in QUAD_KEYS]
+        for k in QUAD_KEYS:
+            if before[k] is None or after[k] is None or not _bytes_equal(before[k], after[k]):
+                bad.append('%s of the source object' % FN[k])
+        ctx.check(not bad, DERIVED, lambda: {'fn': 'derived', 'acc': x0, 'dt': float(dt), 'scenario': _scen(), 'changed': bad},
+                  'object derived by %s(%r): %s' % (how, param, ', '.join(bad)))
+    finally:
+        SCEN['cur'] = None
+
+
 def _final(s):
     return float(s[-1]) if s is not None and s.ndim == 1 and s.shape[0] else None
 
@@ -548,6 +699,7 @@ def relation(ctx, eqsig, x, dt, kind, alpha=None, k=None, base=None, cont=None):
 CAVDP_NICE_DT = [0.1, 0.05, 0.04, 0.025, 0.02, 0.01, 0.005, 0.0025, 0.002]
 CAVDP_EDGE_DT = [1.0, 0.5, 0.25, 0.2, 0.125, 0.001, 0.0005]
 CAVDP_RECIP_K = [49, 93, 99, 49, 93, 99, 98, 103, 107, 161, 186, 196, 198]
+FLOOR_FAIL_K = [k for k in range(1, 4097) if int(1.0 / (1.0 / k)) != k]      # 1/(1/k) floors to k-1 (all of them, ~290)
 GATE = Q.GATE_G
 _LEVELS_BELOW = [m / 4096.0 for m in range(0, 100)]      # background levels in g, all < 0.0245
 INT_RANGE = {'i8': (np.int8, 127), 'i16': (np.int16, 32767), 'i32': (np.int32, 2 ** 31 - 1), 'u8': (np.uint8, 255),
@@ -598,14 +750,67 @@ def to_container(rng, x, kind):
     return x, x
 
 
+SHAPES = ['one-sided-neg', 'one-sided-pos', 'tail-heavy', 'trend', 'interior-zeros', 'both-ends-extreme', 'spike-dominated',
+          'single-changed-sample']
+
+
+def reshape(rng, x):
+    """One of the record shapes the statement does not forbid, applied to a drawn record (same length, same peak
+    magnitude unless the shape itself is about magnitudes). Returns (x, tag)."""
+    x = np.array(x, dtype=float)
+    n = x.shape[0]
+    m = float(np.max(np.abs(x))) if n else 0.0
+    tag = SHAPES[int(rng.integers(len(SHAPES)))]
+    if n < 4 or m == 0:
+        return x, None
+    if tag == 'one-sided-neg':
+        x = -np.abs(x)
+    elif tag == 'one-sided-pos':
+        x = np.abs(x)
+    elif tag == 'tail-heavy':                  # all the action in the last 1/k of the record
+        cut = n - max(2, n // int(rng.integers(3, 12)))
+        x[:cut] *= 0.0 if rng.random() < 0.5 else 1e-4
+    elif tag == 'trend':                       # monotone / trend dominated
+        ramp = np.linspace(rng.uniform(-1, 1), rng.uniform(-1, 1), n)
+        if rng.random() < 0.5:
+            x = np.sort(x) if rng.random() < 0.5 else np.sort(x)[::-1].copy()
+        else:
+            x = m * ramp / max(float(np.max(np.abs(ramp))), 1e-300) + 0.01 * x
+    elif tag == 'interior-zeros':              # runs of exact zeros inside the record
+        for _ in range(int(rng.integers(1, 5))):
+            a = int(rng.integers(1, n - 1))
+            x[a:min(n - 1, a + int(rng.integers(1, max(2, n // 5))))] = 0.0
+    elif tag == 'both-ends-extreme':           # cut out of a longer record: both ends at the peak
+        x[0] = 1.2 * m * rng.choice([-1.0, 1.0])
+        x[-1] = 1.2 * m * rng.choice([-1.0, 1.0])
+    elif tag == 'spike-dominated':             # one sample 1e3 .. 1e12 times larger than everything else
+        j = int(rng.integers(n))
+        x *= 10.0 ** -rng.uniform(3, 12)
+        x[j] = m * rng.choice([-1.0, 1.0])
+    elif tag == 'single-changed-sample':       # a constant record with one sample changed
+        x = np.full(n, m * rng.choice([-1.0, 1.0]) * rng.uniform(0.2, 1.0))
+        x[int(rng.integers(n))] *= rng.choice([-1.0, 0.0, 1.0 + 2.0 ** -20, 3.0])
+    return x, tag
+
+
 def cavdp_case(rng, cls=None, long=False):
     """Returns (acc, dt, class, exact_g)."""
     u = rng.random()
     if long:
         dt = 0.0005
         pps = 2000
-    elif u < 0.37:
+    elif u < 0.27:
         k = CAVDP_RECIP_K[int(rng.integers(len(CAVDP_RECIP_K)))]
+        dt, pps = 1.0 / k, k
+    elif u < 0.37:
+        # any integer rate: every k whose reciprocal floors wrongly (up to 4096), uniform 1..2048, rates around 2**j
+        v = rng.random()
+        if v < 0.45:
+            k = FLOOR_FAIL_K[int(rng.integers(len(FLOOR_FAIL_K)))]
+        elif v < 0.85:
+            k = int(rng.integers(1, 2049))
+        else:
+            k = max(1, 2 ** int(rng.integers(1, 12)) + int(rng.integers(-1, 2)))
         dt, pps = 1.0 / k, k
     elif u < 0.47:
         dt = CAVDP_EDGE_DT[int(rng.integers(len(CAVDP_EDGE_DT)))]
@@ -613,8 +818,13 @@ def cavdp_case(rng, cls=None, long=False):
     else:
         dt = CAVDP_NICE_DT[int(rng.integers(len(CAVDP_NICE_DT)))]
         pps = int(round(1.0 / dt))
+        if rng.random() < 0.12:         # the same step a few ulp off (0.1 + 0.2 - 0.2, a step read from a file ...)
+            for _ in range(int(rng.integers(1, 4))):
+                dt = float(np.nextafter(dt, rng.choice([0.0, 1.0])))
     nwin = int(rng.integers(2, 13)) if rng.random() < 0.88 else int(rng.integers(13, 41))
-    nwin = max(2, min(nwin, 20000 // pps))
+    if pps <= 50 and rng.random() < 0.1:
+        nwin = int(rng.integers(41, 301))       # minutes of a coarsely sampled record
+    nwin = max(2, min(nwin, 25000 // pps))
     if long:
         nwin = 33
     extra = 0 if rng.random() < 0.3 else int(rng.integers(0, pps))
@@ -688,6 +898,10 @@ def cavdp_case(rng, cls=None, long=False):
     else:
         raise ValueError(cls)
     x = np.asarray(x, dtype=float)
+    if cls in ('envelope-noise', 'quake', 'generic', 'all-below') and rng.random() < 0.35:
+        x, tag = reshape(rng, x)
+        if tag:
+            cls += '+' + tag
     if cls in ('envelope-noise', 'quake', 'generic', 'boundary-spike') and rng.random() < 0.4:
         # the extreme of the record at the first sample, the last sample (outside every window when the record has a
         # partial last second), the end of the last window, or on a boundary shared by two windows
@@ -805,12 +1019,18 @@ def quadrature_case(rng, n=None):
         elif u < 0.27 and x[-2] != 0:
             x[-1] = -x[-2] * rng.uniform(0.01, 1.0)
             cls += '+ends-after-sign-change'
+    if rng.random() < 0.25:
+        x, tag = reshape(rng, x)
+        if tag:
+            cls += '+' + tag
     if x[-1] != 0 and rng.random() < 0.3:
         x[-1] = 0.0
         cls += '+endzero'
     u = rng.random()
     if u < 0.2:
         dt = float(10.0 ** rng.uniform(-9, 3))
+    elif u < 0.3:
+        dt = gen.awkward_dt(rng, int(rng.integers(2, 13)))
     else:
         dt = gen.dt(rng)
     u = rng.random()
@@ -824,6 +1044,12 @@ def quadrature_case(rng, n=None):
 
 
 def quad_block(ctx, eqsig, rng, x, dt, cls, ckind, c):
+    if ckind == 'f32':
+        # validity range of the float32 allowance: nothing a float32 evaluation forms may overflow (3.4e38)
+        m, span = float(np.max(np.abs(x))) if len(x) else 0.0, len(x) * float(dt)
+        if max(m * m * max(span, 1.0), (m * span) ** 2 * max(span, 1.0) * max(len(x), 1)) > 1e30:
+            ctx.observe('f32-container-not-used(record outside the float32 range)')
+            ckind = 'f64'
     cont, xr = to_container(rng, x, ckind)
     ctx.case(core.digest(xr, dt, ckind, 'quad'), nontrivial=bool(np.any(xr != 0)),
              cls='quad-%s/%s' % (cls.split('+')[0], ckind),
@@ -854,6 +1080,7 @@ def run_shard(ctx):
     n_hist = (960 if quick else 16000) // ctx.nshards
     n_twin = (240 if quick else 4800) // ctx.nshards
     n_b2b = (240 if quick else 4800) // ctx.nshards
+    n_derived = (480 if quick else 9600) // ctx.nshards
     n_long = 1 if quick else 4
     # -- CAVdp part -------------------------------------------------------------------------------------------
     for c in range(n_cavdp + 1):
@@ -896,6 +1123,20 @@ def run_shard(ctx):
         keys = QUAD_KEYS + (['cavdp'] if in_dom and len(x1) - 1 >= 2 * pps else [])
         ctx.case(core.digest(x1, x2, dt, 'b2b'), nontrivial=bool(np.any(x1 != 0) and np.any(x1 != x2)), cls='back2back-' + cls)
         back_to_back(ctx, eqsig, x1, x2, dt, keys, kw=(c % 3 == 0))
+    for c in range(n_derived):
+        x1, dt, _, cls, _, _ = history_case(rng)
+        x2, _ = gen.record(rng, len(x1))
+        x2 = np.asarray(x2, dtype=float) * ((np.max(np.abs(x1)) or 1.0) / (float(np.max(np.abs(x2))) or 1.0))
+        how = DERIVATIONS[c % len(DERIVATIONS)]
+        param = None
+        if how == 'deepcopy+add':
+            param = float(rng.uniform(-1, 1) * (np.max(np.abs(x1)) or 1.0))
+        elif how in ('interp', 'resample'):
+            param = float(dt) * float(rng.choice([1.0, 0.5, 2.0, 0.3, 1.7]))      # incl. target == current
+        elif how == 'combine':
+            param = float(rng.choice([0.0, 90.0, 30.0, -45.0, 180.0]))               # incl. the angles where nothing needs doing
+        ctx.case(core.digest(x1, x2, dt, how, param, 'derived'), nontrivial=bool(np.any(x1 != 0)), cls='derived-' + how)
+        derived_case(ctx, eqsig, x1, x2, dt, how, param)
     # -- quadrature part + relations --------------------------------------------------------------------------
     for c in range(n_long):
         x, dt, cls = quadrature_case(rng, n=int(rng.choice([2 ** 16 + 1, 2 ** 16 + 1000, 100003])))
@@ -928,6 +1169,8 @@ def replay(w):
                         sigcls=sc.get('sigcls', 'AccSignal'))
         elif sc['kind'] == 'twin':
             twin_case(ctx, eqsig, np.asarray(sc['acc0']), dt, sc['ops'])
+        elif sc['kind'] == 'derived':
+            derived_case(ctx, eqsig, np.asarray(sc['acc0']), np.asarray(sc['acc2']), dt, sc['how'], sc.get('param'))
         elif sc['kind'] == 'back2back':
             back_to_back(ctx, eqsig, np.asarray(sc['acc0']), np.asarray(sc['acc2']), dt, sc['keys'], kw=sc.get('kw', False))
         else:
